@@ -144,7 +144,9 @@ def build_coq(targets=None, timeout=3000):
     cmd = ["make", "-j%d" % NPROC]
     if targets:
         cmd += targets
-    rc, out = sh(["timeout", str(timeout)] + cmd, cwd=COQ, check=False, timeout=timeout + 60)
+    # a runaway tactic must not take the machine (or the shared lock) hostage: 12 GB per coqc
+    shcmd = "ulimit -v 12000000; exec timeout %d %s" % (timeout, " ".join(cmd))
+    rc, out = sh(shcmd, cwd=COQ, check=False, timeout=timeout + 60)
     return rc, out, time.time() - t
 
 
@@ -277,7 +279,8 @@ def parse_results(d, names, rc, out, err, timed_out, keep=False):
         for n in names:
             if res[n].status == "notrun":
                 res[n].status = "timeout" if timed_out else "crash"
-                res[n].kind = ("rc=%d " % rc) + err.strip().splitlines()[0][:200] if err.strip() else "rc=%d" % rc
+                first = re.sub(r"\(\d+\) ", "", err.strip().splitlines()[0][:200]) if err.strip() else ""
+                res[n].kind = ("rc=%d %s" % (rc, first)).strip()
                 res[n].leftover = os.path.exists(os.path.join(d, n + ".pcap"))
                 break
     return res
@@ -397,3 +400,29 @@ def load_known():
         return json.load(open(p))["findings"]
     except OSError:
         return []
+
+
+def spec_batch(queries, tag="spec"):
+    """Run specification-side predicates (extracted from Spec/*.v) over implementation bytes."""
+    if not queries:
+        return []
+    d = os.path.join(BUILD, "work")
+    os.makedirs(d, exist_ok=True)
+    shards = min(NPROC, max(1, len(queries) // 200))
+    procs = []
+    for i in range(shards):
+        part = queries[i::shards]
+        p = os.path.join(d, "%s-%d-%d.q" % (tag, os.getpid(), i))
+        with open(p, "w") as f:
+            f.write("\n".join(part) + "\n")
+        procs.append((p, len(part), subprocess.Popen([MODEL, "spec", p], stdout=subprocess.PIPE)))
+    answers = [None] * len(queries)
+    for i, (p, n, pr) in enumerate(procs):
+        so, _ = pr.communicate()
+        os.unlink(p)
+        lines = so.decode().splitlines()
+        if len(lines) < n:
+            raise BuildError("spec driver returned %d answers for %d queries" % (len(lines), n))
+        for j in range(n):
+            answers[i + j * shards] = lines[j]
+    return answers
